@@ -620,7 +620,10 @@ def _stable(x):
 # ------------------------------------------------------------------ sys.monitoring hooks
 TOOL_ID = 4
 _mon_installed = False
-_code_index = {}
+_code_index = {}      # id(code object) -> stable identifier.  By identity: code objects compare by value (two generated
+                      # functions with the same text are equal), a dict keyed by them would hand one function the
+                      # identifier of a look-alike compiled earlier in this process
+_code_keep = []       # keeps the code objects alive so that their ids are never reused
 _line_codes = []
 _opcode_codes = []
 
@@ -631,7 +634,7 @@ def _on_line(code, lineno):
     return
   sim = ctl.sim
   if sim.gran >= G_LINE:
-    sim.yield_point(1, _code_index.get(code, 0), lineno)
+    sim.yield_point(1, _code_index.get(id(code), 0), lineno)
   else:
     # still counts against the step budget so that a loop with no
     # synchronisation in it cannot hang the run
@@ -649,7 +652,7 @@ def _on_instruction(code, offset):
     return
   sim = ctl.sim
   if sim.gran >= G_OPCODE:
-    sim.yield_point(2, _code_index.get(code, 0), offset)
+    sim.yield_point(2, _code_index.get(id(code), 0), offset)
 
 
 def collect_code_objects(root_code):
@@ -675,9 +678,9 @@ def install_monitoring(line_codes, opcode_codes=()):
     mon.register_callback(TOOL_ID, mon.events.LINE, _on_line)
     mon.register_callback(TOOL_ID, mon.events.INSTRUCTION, _on_instruction)
     _mon_installed = True
-  ops = set(opcode_codes)
+  ops = set(id(c) for c in opcode_codes)
   for c in list(line_codes) + list(opcode_codes):
-    if c not in _code_index:
+    if id(c) not in _code_index:
       # an identifier that does not depend on what else this process has compiled or in which order
       fn = c.co_filename
       if fn.startswith('<'):
@@ -685,9 +688,10 @@ def install_monitoring(line_codes, opcode_codes=()):
         fn = ''.join(linecache.getlines(fn))
       else:
         fn = fn.rsplit('/', 1)[-1]
-      _code_index[c] = _stable((fn, c.co_qualname, c.co_firstlineno)) & 0xFFFFFFFFFFFF
+      _code_index[id(c)] = _stable((fn, c.co_qualname, c.co_firstlineno)) & 0xFFFFFFFFFFFF
+      _code_keep.append(c)
     ev = mon.events.LINE
-    if c in ops:
+    if id(c) in ops:
       ev |= mon.events.INSTRUCTION
     cur = mon.get_local_events(TOOL_ID, c)
     if cur | ev != cur:
